@@ -12,6 +12,7 @@ import Driver.Dispatch
 import Driver.EvmMachine
 import Driver.Partition
 import Driver.Power
+import Driver.Verifreg
 
 /-- generic stdin/stdout loop over a pure handler -/
 partial def loop {σ : Type} (h : IO.FS.Stream) (out : IO.FS.Stream) (step : σ → String → σ × String)
@@ -42,4 +43,6 @@ def main (args : List String) : IO UInt32 := do
   | ["dispatch"] => loop stdin stdout Driver.Dispatch.handle (); return 0
   | ["evmmachine"] => loop stdin stdout Driver.EvmMachine.handle (); return 0
   | ["power"] => loop stdin stdout Driver.Power.handle Driver.Power.dinit; return 0
+  | ["verifreg"] =>
+    loop stdin stdout Driver.Verifreg.handle { sys := BA.Verifreg.init 0 [] }; return 0
   | _ => IO.eprintln "usage: driver <model>"; return 2
